@@ -702,10 +702,18 @@ def check_for_each(ctx, tu):
         params = f['params']
         inst = 'for_each %s' % f['fty'][:110]
         key = '%s|%s|for_each(%d)|' % (R, FE, len(params))
-        if len(params) == 3:
+        # for_each(size, f) may contain the loop nest itself (lower corner fixed at the origin) instead of forwarding
+        zero_lower = False
+        if len(params) == 2 and 'vec_t<int, 3' in params[0]['ct'] and 'range_t' not in params[0]['ct']:
+            b0 = [x for x in tu.kids(tu.body(f)) if x.get('kind') != 'IfStmt']
+            zero_lower = len(b0) == 1 and b0[0].get('kind') == 'ForStmt'
+        if len(params) == 3 or zero_lower:
             n += 1
             problems, und = [], []
-            lo, hi, fun = (p['name'] for p in params)
+            if zero_lower:
+                lo, hi, fun = None, params[0]['name'], params[1]['name']
+            else:
+                lo, hi, fun = (p['name'] for p in params)
             comp_expected = ['z', 'y', 'x']
             cur = tu.kids(tu.body(f))
             level = 0
@@ -762,6 +770,26 @@ def check_for_each(ctx, tu):
                 v = vds[0]
                 i0 = nf(tu, tu.kids(v)[-1], env)
                 want = comp_expected[level] if level < 3 else '?'
+                if zero_lower:
+                    # the component a loop runs over is the one its bound names (the lower corner is the constant 0)
+                    cpre = nf(tu, cond, env)
+                    cfrom = [x[2] for x in (cpre[2] if cpre[0] == 'op' and isinstance(cpre[2], tuple) else ())
+                             if isinstance(x, tuple) and x and x[0] == 'mem' and x[1] == ('ref', 'ParmVarDecl', hi)]
+                    if len(cfrom) != 1:
+                        und.append('loop %d is not bounded by a component of the size' % level)
+                        break
+                    i0c = drop_casts(i0)
+                    if i0c == ('int', 0):
+                        i0 = ('mem', ('ref', 'ParmVarDecl', lo), cfrom[0])
+                    elif i0c[0] == 'int':
+                        problems.append(('init', 'loop %d starts at %d instead of 0' % (level, i0c[1])))
+                        i0 = ('mem', ('ref', 'ParmVarDecl', lo), cfrom[0])
+                    elif i0c[0] == 'mem' and i0c[1] == ('ref', 'ParmVarDecl', hi):
+                        problems.append(('init', 'loop %d starts at size.%s instead of 0' % (level, i0c[2])))
+                        i0 = ('mem', ('ref', 'ParmVarDecl', lo), cfrom[0])
+                    else:
+                        und.append('loop %d starts at %s' % (level, show(i0)))
+                        break
                 if not (i0[0] == 'mem' and i0[1] == ('ref', 'ParmVarDecl', lo)):
                     if i0[0] == 'mem' and i0[1] == ('ref', 'ParmVarDecl', hi):
                         problems.append(('init', 'loop %d starts at upper.%s instead of lower.%s' % (level, i0[2], want)))
@@ -868,8 +896,9 @@ def check_for_each(ctx, tu):
                     seen.add(kind)
                     ctx.violation(R, inst, why, tu.fn_loc(f), key=key + kind)
             if not und and not problems:
-                ctx.ok(R, inst, 'for z in [lower.z, upper.z) / y / x nest, functor(vec3i(ix, iy, iz)) once per cell%s'
-                       % (' (inner loop in helper %s)' % ', '.join(helpers) if helpers else ''), tu.fn_loc(f))
+                ctx.ok(R, inst, 'for z in [%s) / y / x nest, functor(vec3i(ix, iy, iz)) once per cell%s'
+                       % ('0, size.z' if zero_lower else 'lower.z, upper.z',
+                          ' (inner loop in helper %s)' % ', '.join(helpers) if helpers else ''), tu.fn_loc(f))
         elif len(params) == 2:
             n += 1
             env, stmts, rets = fn_statements(tu, f)
